@@ -246,6 +246,24 @@ func init() {
 				copy(mut[o:], second)
 				copy(mut[o+lb:], first)
 			}
+		case "insert":
+			// bytes inserted into a region the parser skips (per the specification: a certificate payload), its length field adjusted;
+			// every slot behind the insertion point moves along
+			at, lo, ins := adv.Int("at"), adv.Int("lenoff"), adv.Bytes("bytes")
+			if at >= 0 && at <= len(mut) && lo >= 0 && lo+1 < len(mut) {
+				mut = append(append(append([]byte{}, mut[:at]...), ins...), mut[at:]...)
+				mut[lo], mut[lo+1] = byte(adv.Int("newlen")>>8), byte(adv.Int("newlen"))
+				sh := func(x int) int {
+					if x >= at {
+						return x + len(ins)
+					}
+					return x
+				}
+				sigslot.off, offKey.off, offSig.off = sh(sigslot.off), sh(offKey.off), sh(offSig.off)
+				if hasOff {
+					off = Args{"tst": off["tst"], "from": float64(sh(off.Int("from"))), "to": float64(sh(off.Int("to")))}
+				}
+			}
 		case "replace_sig":
 			asig, _ := attacker.sign(append(append([]byte{}, prefix...), mut[:sigslot.off]...))
 			put(mut, sigslot, asig)
